@@ -164,8 +164,43 @@ def impl_real_gap_check(inp):
         return "undefined-value", dict(count=int(idx.size), first_indices=idx[:10].tolist())
     return None, None
 
+def k19(res, tier, seed, tag="k19"):
+    """K19: hand model Model/Calendar.v vs the time helpers of ibicus/utils/_utils.py: year, day_of_year, month on
+    create_array_of_consecutive_dates(n, start) for random start dates (leap years, century years 1900/2000/2100, year
+    turns), as object dates and as numpy datetime64 of several units; and the dates inferred when no time array is given."""
+    import datetime
+    from ibicus.utils import _utils as U
+    r = C.rng_for(seed, tag)
+    n_cases = 16 if tier == "quick" else 160
+    cc = C.CoqCases(tag, ["Calendar", "CorrBase", "CalendarCorr"], per_file=8)
+    meta = []
+    for i in range(n_cases):
+        if i % 8 == 7:
+            n = r.randint(1, 900)
+            t = U.infer_and_create_time_arrays_if_not_given(np.zeros(n), np.zeros(1), np.zeros(1))[0]
+            cc.add("k19_inferred %d%%nat %s %s" % (n, C.zl(U.year(t)), C.zl(U.day_of_year(t))))
+            m_ = dict(func="infer_and_create_time_arrays_if_not_given", n=n)
+        else:
+            y = r.choice([1899, 1900, 1904, 1999, 2000, 2001, 2096, 2100, r.randint(1850, 2200), r.randint(1850, 2200)])
+            mth = r.choice([1, 2, 2, 3, 12, r.randint(1, 12)])
+            import calendar
+            d = r.choice([1, calendar.monthrange(y, mth)[1], r.randint(1, calendar.monthrange(y, mth)[1])])
+            n = r.choice([1, 2, r.randint(3, 400), r.randint(300, 800)])
+            rep = TIME_REPS[i % 4]
+            t = dates(datetime.date(y, mth, d), n, rep)
+            cc.add("k19 %d%%nat %s %s %s %s %s %s" % (n, C.z(y), C.z(mth), C.z(d), C.zl(U.year(t)), C.zl(U.day_of_year(t)), C.zl(U.month(t))))
+            m_ = dict(func="year/day_of_year/month(create_array_of_consecutive_dates)", start="%04d-%02d-%02d" % (y, mth, d), n=n, time_dtype=rep)
+        meta.append(m_); res.case(("k19", m_.get("time_dtype"), n > 366), sample=m_ if len(res.samples) < 3 else None)
+    fails, errors = cc.run()
+    res.components["K19 Model/Calendar.v (hand model) vs utils year / day_of_year / month / consecutive dates"] = dict(cases=len(cc.cases), disagreements=len(fails), errors=len(errors))
+    for e in errors[:3]:
+        res.broke("correspondence-error", "K19", e)
+    for i in fails[:5]:
+        res.broke("correspondence", "K19 " + meta[i]["func"], meta[i])
+
 # ------------------------------------------------------------------ correspondence
 def correspondence(res, tier, seed):
+    k19(res, tier, seed, tag="k19c07")
     m = W()
     r = C.rng_for(seed, "c07-corr")
     n = 120 if tier == "quick" else 1200
